@@ -6,7 +6,7 @@ RUN = "monitor"
 SHARD = 6
 TAGS = {1, 2, 3, 4, 5, 6, 8, 10, 12, 13, 15}
 RULE = ("lifecycle scenarios: close() by client/server/both/nobody at a random instant of handshake or transfer (incl. "
-        "window-limited senders), peer silenced after a random number of datagrams, close packets lost/duplicated, idle "
+        "window-limited senders), peer silent from a random datagram on (one or both directions), close packets lost/duplicated, idle "
         "timeout and keep-alive settings, late timers; non-trivial = at least one connection reached Drained")
 
 
@@ -15,15 +15,23 @@ def gen(rng, n):
     for i in range(n):
         d = S.base(rng, small=rng.chance(1, 2))
         S.knobs(rng, d)
+        # cost: the lifecycle does not need long lives; a shorter idle timeout and horizon keep the
+        # "nobody closes" / silent-peer scenarios (which run until the idle timeout) cheap
+        d["IDLE_MS"] = rng.choice([2000, 5000, 10000])
+        d["MAX_TIME"] = 25_000_000
         m = rng.below(6)
         d["CLOSER"] = rng.choice([0, 1, 2, 3])
         if m == 0:      # close at a random instant
             d["CLOSE_AT"] = rng.choice([1, 5000, 15000, 25000, 40000, 80000, 200000])
-        elif m == 1:    # peer disappears
-            d["SILENCE_AFTER"] = rng.range(0, 12)
-            d["SILENCE_SIDE"] = rng.below(2)
+        elif m == 1:    # peer disappears: every datagram from the k-th on is lost (one or both directions).
+            # (SILENCE_AFTER is not used: the simulator then spins on the stale wake-up of the silenced
+            # endpoint until its step budget - 400 k records per trace and the survivor never reaches its
+            # idle timeout. Reported to the owner of sim.rs.)
+            k = rng.range(0, 14)
+            d["DROP_MASK"] = ((1 << 126) - 1) ^ ((1 << k) - 1)
+            d["DROP_MASK_DIR"] = rng.below(3)
             d["IDLE_MS"] = rng.choice([300, 1000, 3000])
-            d["MAX_TIME"] = 40_000_000
+            d["MAX_TIME"] = 15_000_000
         elif m == 2:    # window-limited sender closes mid-transfer
             d["STREAM_BYTES"] = rng.choice([200000, 1000000])
             d["WRITE_CHUNK"] = 100000
@@ -38,7 +46,9 @@ def gen(rng, n):
             if rng.chance(1, 2):
                 d["KEEPALIVE_MS"] = max(50, d["IDLE_MS"] // rng.choice([2, 3, 10]))
                 d["MAX_TIME"] = 8_000_000
-        if rng.chance(1, 2):
+        if d.get("STREAM_RWND") == 1:
+            d["STREAM_BYTES"] = min(d["STREAM_BYTES"], 700)     # one byte per round trip
+        if rng.chance(1, 2) and m != 1:
             S.lossy(rng, d)
         if rng.chance(1, 3):
             d["LATE_US"] = rng.choice([1, 500, 5000])
@@ -49,6 +59,10 @@ def gen(rng, n):
 
 
 def project(case, outs):
+    # [[-999]] panic, [[-998]] run killed by the harness time limit, [[-997]] crash: keep the marker,
+    # the monitors reject it (a connection that does not terminate is a violation of C08 itself)
+    if len(outs) == 1 and outs[0] and outs[0][0] < 0:
+        return outs
     return S.project(outs, TAGS)
 
 
